@@ -5,10 +5,10 @@ import NetaddrVerif.Model.Nmap
 
     valid_glob S                       → T/F
     glob_conv S                        → `lo,hi lo,hi lo,hi,S [4:v/p,…]` (iptuple, iprange, IPGlob, glob_to_cidrs) or `!`
-    range2globs A A                    → `[S,…]` or `!<Err>`
-    cidr2glob N                        → `S` or `!<Err>`
-    nmap_valid S netres addrres        → T/F or `!<Err>` (an exception valid_nmap_range lets through)
-    nmap_iter fuel S netres addrres    → `[v,…]` (IPv6 as `6:v`) or `!`
+    range2globs A A                    → `[S,…]` or `!`
+    cidr2glob N                        → `S` or `!`
+    nmap fuel S netres addrres         → `valid iter`: T/F or `!` (an exception valid_nmap_range lets through),
+                                         then `[v,…]` (IPv6 as `6:v`) or `!`
     nmap_multi fuel [S,…]              → `[v,…]` + `!` if a spec failed (octet-list specs only)
 
     `netres` / `addrres` = result of the foreign `IPNetwork(spec)` / `IPAddress(spec)`:
@@ -74,23 +74,22 @@ def handle (op : String) (args : List String) : Option String :=
     let a ← parseAddr a; let b ← parseAddr b
     match Glob.iprangeToGlobs a b with
     | .ok l => pure (showStrs l)
-    | .error e => pure (showErr e)
+    | .error _ => pure "!"
   | "cidr2glob", [n] => do
     let n ← parseNet n
     match Glob.cidrToGlob n with
     | .ok g => pure (showStr g)
-    | .error e => pure (showErr e)
-  | "nmap_valid", [s, n, a] => do
-    let s ← parseStr s
-    match Nmap.validNmapRange (foreign n a) s with
-    | .ok b => pure (showBool b)
-    | .error e => pure (showErr e)
-  | "nmap_iter", [fuel, s, n, a] => do
+    | .error _ => pure "!"
+  | "nmap", [fuel, s, n, a] => do
     let fuel ← fuel.toNat?
     let s ← parseStr s
-    match Nmap.iterNmapRange (foreign n a) fuel s with
-    | .ok l => pure (showList (l.map showAddr))
-    | .error _ => pure "!"
+    let v := match Nmap.validNmapRange (foreign n a) s with
+      | .ok b => showBool b
+      | .error _ => "!"
+    let it := match Nmap.iterNmapRange (foreign n a) fuel s with
+      | .ok l => showList (l.map showAddr)
+      | .error _ => "!"
+    pure (v ++ " " ++ it)
   | "nmap_multi", [fuel, ss] => do
     let fuel ← fuel.toNat?
     let ss ← (← parseList ss).mapM parseStr
